@@ -154,6 +154,18 @@ class FakeFS:
         return io.StringIO(self.files[p])
 
 
+class LenList(list):
+    """stand-in for a very long list of import intervals: holds a few real intervals, reports `n` as its length
+    (the combiner only takes len() of the list for its merge-task limit; iteration sees the real elements)"""
+    n = 0
+
+    def __len__(self):
+        return self.n
+
+
+SETTER_FINDING = 'gvcf_batch_size setter with more than 150000 import intervals sets the batch size to 0'
+
+
 class FakeType:
     def __init__(self, *a, **k):
         pass
@@ -282,7 +294,9 @@ class C38(Prop):
     rule = ('two case kinds. part: (reference name, 25 contig lengths, interval size) through the real calculate_even_genome_partitioning; '
             'lengths are boundary-directed (multiples of size, +-1, 1, size, size+1). plan: (gvcf count 0-60, sample names or not, input VDS '
             'sample counts incl. exact powers of the branch factor, branch factor 2-12, gvcf batch size 1-20, optional import intervals = the real '
-            'partitioning of a small 25-contig genome carried through every save->load, resume schedule none/every step/'
+            'partitioning of a small 25-contig genome carried through every save->load, optionally reported at a length around the merge-task '
+            'limit (147075 ... 300000 import intervals; a stand-in list: only len() is read), optional calls of the public gvcf_batch_size '
+            'setter between steps, resume schedule none/every step/'
             'random) through the real VariantDatasetCombiner, state dumped after every step and every save->load. Non-trivial = partition with '
             '>= 2 intervals on some contig, or plan with >= 2 merge steps; distinct by case content')
     trusted = ['harness/props/c38.py recorder standing in for hl.* engine calls inside variant_dataset_combiner.py (reads/merges/writes are '
@@ -381,6 +395,16 @@ class C38(Prop):
             size = rng.choice([1, 2, 3, 5, 7, 10])
             case['ivsize'] = size
             case['ivlens'] = [rng.choice([1, size, size + 1, max(1, size - 1), 2 * size, rng.randint(1, 2 * size)]) for _ in range(25)]
+            if rng.random() < 0.3:
+                # the NUMBER of import intervals around the merge-task limit (150000 // n clamps of the batch-size setter); a stand-in list
+                # of that length around the few real intervals
+                case['nintervals'] = rng.choice([147075, 150000, 150001, 75000, 75001, 50001, 300000, 100000, 1000])
+        if rng.random() < (0.3 if case.get('nintervals', 0) <= 150000 else 0.1):
+            # combiner.gvcf_batch_size = v between steps (the public setter)
+            case['setter'] = [[rng.randrange(max(1, min(k, 6))), rng.choice([1, 2, 3, batch if batch >= 1 else 1, 20, 150000])]
+                              for _ in range(rng.choice([1, 1, 2]))]
+            if case.get('nintervals', 0) > 150000:
+                case['names'] = 1
         return case
 
     def cases(self, rng, n, tier):
@@ -412,11 +436,18 @@ class C38(Prop):
                  ' '.join(map(str, ['init', c['bf'], c['batch'], c['names'], 'G'] + list(range(g)) + ['V'] + vs + ['F'] + self._anomalies(c)))]
         ivline = 'ivrt ' + ' '.join(map(str, self._iv_tokens(c)))
         legal = c['bf'] >= 2 and c['batch'] >= 1     # a refused constructor leaves nothing to reload
-        for r in c['resume']:
+        real_len = len(self._iv_tokens(c)) // 6
+        cur_len = c.get('nintervals') or real_len
+        for i, r in enumerate(c['resume']):
             if r:
                 lines.append('reload')
                 if legal:
                     lines.append(ivline.strip())
+                    cur_len = real_len       # the stand-in length does not survive the JSON round trip
+            if legal:
+                for (at, v) in c.get('setter', []):
+                    if at == i:
+                        lines.append(f'setbatch {cur_len} {v}')
             lines.append('step')
         return lines
 
@@ -522,11 +553,14 @@ class C38(Prop):
             rec.datasets[p] = ([p], n)
             rec.reads[p] = 0
             mds.append(vdc.VDSMetadata(p, n))
-        n_lines = 1 + sum(1 + r for r in c['resume'])
+        n_lines = 1 + sum(1 + r for r in c['resume'])      # a refused constructor: no ivrt / setbatch lines
         contigs = self.CONTIGS38
         lens = c.get('ivlens') or [1] * 25
         self.rg = self.ReferenceGenome('GRCh38', contigs, dict(zip(contigs, lens)), _builtin=True)
         intervals = self.cb.calculate_even_genome_partitioning(self.rg, c['ivsize']) if c.get('ivsize') else []
+        if c.get('nintervals') and intervals:
+            intervals = LenList(intervals)
+            intervals.n = c['nintervals']
         self.load_problems = []
         cidx = {k: i for i, k in enumerate(contigs)}
 
@@ -542,7 +576,7 @@ class C38(Prop):
         except ValueError:
             return ['ok'] + ['err'] * n_lines, rec, None
         lines = ['ok', self._dump(comb)]
-        for r in c['resume']:
+        for i, r in enumerate(c['resume']):
             if r:
                 comb.save()
                 saved = comb
@@ -550,6 +584,10 @@ class C38(Prop):
                 lines.append(self._dump(comb))
                 lines.append(show_ivs(comb._gvcf_import_intervals))
                 self._check_load(c, saved, comb, contigs, lens)
+            for (at, v) in c.get('setter', []):
+                if at == i:
+                    comb.gvcf_batch_size = v
+                    lines.append(self._dump(comb) + f' batch={comb._gvcf_batch_size}')
             comb.step()
             lines.append(self._dump(comb))
         return lines, rec, comb
@@ -676,12 +714,20 @@ class C38(Prop):
                 'plan resume=' + ('none' if not any(c['resume']) else 'all' if all(c['resume']) else 'some'),
                 f'plan state-changes={min(merges, 6)}{"+" if merges >= 6 else ""}',
                 'plan names' if c['names'] else 'plan no-names',
+                'plan interval-count=' + ('real' if not c.get('nintervals') else '<=150000' if c['nintervals'] <= 150000 else '>150000'),
+                'plan setter-calls' if c.get('setter') else 'plan no-setter-call',
                 'plan import-intervals' + ('' if c.get('ivsize') else '=none') + (' reloaded' if c.get('ivsize') and any(c['resume']) else '')]
         if self._anomalies(c):
             tags.append('plan float-log-anomaly')
         return (json.dumps(c, sort_keys=True) if merges >= 3 else None, tags)
 
     def finding_key(self, c, msg):
+        # the open finding: the public setter applied while the combiner holds more than 150000 import intervals (no reload before it,
+        # which would drop the stand-in length) leaves batch size 0 and the run makes no progress
+        if c.get('kind') == 'plan' and msg.startswith('not finished after') and c.get('nintervals', 0) > 150000 and c.get('g', 0) > 0:
+            for (at, v) in c.get('setter', []):
+                if v >= 1 and at < len(c['resume']) and not any(c['resume'][:at + 1]):
+                    return SETTER_FINDING
         return json.dumps(c, sort_keys=True)
 
     def shrink(self, c, fails):
